@@ -3,6 +3,8 @@
 import pickle
 import random
 
+import collections
+
 from .. import attach, gen, core
 from ..attach import Monitor
 from ..core import COL
@@ -48,7 +50,23 @@ def judge_labels(lat, cap, origin):
     COL.count('judged_labels')
     COL.count('judged_labels_' + origin)
     if not view.faithful():
-        COL.count('unfaithful_lattice_skipped')          # C03/C06's business
+        # which concepts there are is C03/C06's business; what C10 states about the members that are
+        # there does not depend on it: every object / property labels exactly one of them
+        COL.count('unfaithful_lattice_label_occurrences_only')
+        try:
+            occ_o = collections.Counter(o for c in view.members for o in c.objects)
+            occ_p = collections.Counter(p_ for c in view.members for p_ in c.properties)
+        except Exception as e:
+            COL.violation('labels', 'labels:unreadable', None, repr(e), {'origin': origin})
+            return
+        bad_o = [o for o in sh.objects if occ_o.get(o, 0) != 1]
+        bad_p = [p_ for p_ in sh.properties if occ_p.get(p_, 0) != 1]
+        if bad_o or bad_p:
+            COL.violation('labels', 'labels:name-does-not-label-exactly-one-member',
+                          'each object and each property in the label of exactly one member',
+                          {'objects': {o: occ_o.get(o, 0) for o in bad_o[:5]},
+                           'properties': {p_: occ_p.get(p_, 0) for p_ in bad_p[:5]}},
+                          {'origin': origin, 'members': len(view.members), 'concepts': sl.n})
         return
     members = view.members
     if origin != 'quiescent':
